@@ -171,3 +171,199 @@ func HarnessC15Reconcile() {
 		}
 	}
 }
+
+// ---------------------------------------------------------------------------
+// Sync half: sync() moves a local reference only to the state its latest
+// unskipped remote entry records, never rewinds or overwrites a diverged
+// local reference unless told to, and publishes local-only entries together
+// with the references their unskipped entries name.
+
+func zz15RefsOf(s *zzmem.Store) map[string]string {
+	out := map[string]string{}
+	for _, n := range s.RefNames() {
+		out[n] = s.Ref(n).String()
+	}
+	return out
+}
+
+// zz15LatestUnskipped: for every reference named in the part of s's log after
+// `after` (nil: whole log), the target of its latest reference entry that no
+// annotation in the log revokes -- read from the commit messages through the
+// rsl readers of an untouched copy.
+func zz15LatestUnskipped(s *zzmem.Store, nsuffix int) map[string]githash.Hash {
+	all := zz15Read(s)
+	skipped := map[string]bool{}
+	for _, e := range all {
+		if a, ok := e.(*rsl.AnnotationEntry); ok && a.Skip {
+			for _, id := range a.RSLEntryIDs {
+				skipped[id.String()] = true
+			}
+		}
+	}
+	out := map[string]githash.Hash{}
+	for _, e := range all[len(all)-nsuffix:] {
+		if r, ok := e.(*rsl.ReferenceEntry); ok && !skipped[r.ID.String()] {
+			out[r.RefName] = r.TargetID
+		}
+	}
+	return out
+}
+
+func HarnessC15Sync() {
+	remote := zzmem.New(1)
+	local := zzmem.New(2)
+	tree := remote.RawEmptyTree()
+	mk := func(s *zzmem.Store, msg string, parent githash.Hash) githash.Hash {
+		var ps []githash.Hash
+		if parent != nil {
+			ps = []githash.Hash{parent}
+		}
+		return s.RawCommit("", tree, ps, msg, zzmem.Unsigned)
+	}
+	main, feature := zz15Refs[0], zz15Refs[1]
+	c0 := mk(remote, "c0", nil)
+	c1 := mk(remote, "c1", c0)
+	c2 := mk(remote, "c2", c1)
+	f0 := mk(remote, "f0", nil)
+	f1 := mk(remote, "f1", f0)
+	// common prefix: main and feature recorded at c0 / f0 on the remote, cloned
+	var common []zz15Entry
+	remote.SetRef(main, c0)
+	remote.SetRef(feature, f0)
+	common = append(common, zz15Record(remote, common, zz15Entry{kind: 0, ref: main, target: c0}))
+	common = append(common, zz15Record(remote, common, zz15Entry{kind: 0, ref: feature, target: f0}))
+	local.CopyCommitsFrom(remote, remote.Ref(rsl.Ref))
+	local.CopyCommitsFrom(remote, c2)
+	local.CopyCommitsFrom(remote, f1)
+	local.SetRef(rsl.Ref, remote.Ref(rsl.Ref))
+	local.SetRef(main, c0)
+	if verif.ConcreteBool(verif.Bool("local.has.feature")) {
+		local.SetRef(feature, f0)
+	}
+	l1 := mk(local, "local work", c0) // a local commit on main the remote never saw
+
+	// one side's suffix: reference entries moving main / feature forward and
+	// skip annotations on entries of that suffix
+	suffix := func(side string, s *zzmem.Store, n int) int {
+		log := append([]zz15Entry(nil), common...)
+		mainAt, featAt := 0, 0
+		for i := 0; i < n; i++ {
+			p := side + strconv.Itoa(i)
+			switch verif.Concrete(verif.Choice(p+".kind", 3)) {
+			case 0:
+				mainAt++
+				t := []githash.Hash{c1, c2}[mainAt-1]
+				s.SetRef(main, t)
+				log = append(log, zz15Record(s, log, zz15Entry{kind: 0, ref: main, target: t}))
+			case 1:
+				if featAt == 1 {
+					return -1
+				}
+				featAt++
+				s.SetRef(feature, f1)
+				log = append(log, zz15Record(s, log, zz15Entry{kind: 0, ref: feature, target: f1}))
+			default:
+				if len(log) == len(common) {
+					return -1 // nothing of this suffix to revoke yet
+				}
+				t := len(common) + verif.Concrete(verif.Choice(p+".target", len(log)-len(common)))
+				log = append(log, zz15Record(s, log, zz15Entry{kind: 1, targets: []int{t}, skip: true}))
+			}
+		}
+		return n
+	}
+	mode := verif.Concrete(verif.Choice("mode", 3)) // 0 remote ahead, 1 local ahead, 2 both (diverged logs)
+	nr, nl := 0, 0
+	if mode != 1 {
+		nr = suffix("r", remote, verif.Concrete(verif.IntRange("nremote", 1, verif.Bound("suffix", 2, 3))))
+	}
+	if mode != 0 {
+		// local recording moves the local references as gittuf users do
+		if !local.HasObject(f0) || local.Ref(feature) == nil {
+			local.SetRef(feature, f0)
+		}
+		nl = suffix("l", local, verif.Concrete(verif.IntRange("nlocal", 1, verif.Bound("suffix", 2, 3))))
+	}
+	if nr < 0 || nl < 0 {
+		return
+	}
+	// state of the local main branch relative to what the remote records
+	if mode == 0 {
+		switch verif.Concrete(verif.Choice("local.main", 4)) {
+		case 1:
+			local.SetRef(main, c1) // possibly equal to, behind or ahead of the remote's entry
+		case 2:
+			local.SetRef(main, c2)
+		case 3:
+			local.SetRef(main, l1) // diverged from everything the remote records after c0
+		}
+	}
+	overwrite := verif.ConcreteBool(verif.Bool("overwrite"))
+
+	repoModel := gitinterface.ZZNewModelRepo(local)
+	gitinterface.ZZAddModelRemote(repoModel, "origin", remote)
+	repo := &Repository{r: repoModel}
+	beforeLocal, beforeRemote := zz15RefsOf(local), zz15RefsOf(remote)
+	wantRemote := zz15LatestUnskipped(remote, nr)
+	wantLocal := zz15LatestUnskipped(local, nl)
+	remoteRSL := remote.Ref(rsl.Ref)
+
+	diverged, err := repo.sync("origin", overwrite)
+	afterLocal, afterRemote := zz15RefsOf(local), zz15RefsOf(remote)
+	delete(afterLocal, rsl.RemoteTrackerRef("origin"))
+
+	if err != nil {
+		verif.Reach("refused")
+		changed := false
+		for n, v := range afterLocal {
+			if beforeLocal[n] != v {
+				changed = true
+			}
+		}
+		verif.Assert(!changed && len(afterLocal) == len(beforeLocal), "refused-sync-changes-no-local-reference")
+		verif.Assert(len(diverged) > 0, "refusal-names-the-diverged-references")
+		return
+	}
+	verif.Reach("synced")
+	switch mode {
+	case 1:
+		verif.Reach("pushed")
+		verif.Assert(afterRemote[rsl.Ref] == afterLocal[rsl.Ref], "push:remote-log-is-the-local-log")
+		for ref := range wantLocal {
+			verif.Assert(afterRemote[ref] == afterLocal[ref], "push:references-named-by-unskipped-local-entries-are-published-with-the-log")
+		}
+		for n, v := range afterLocal {
+			verif.Assert(beforeLocal[n] == v, "push:no-local-reference-moves")
+		}
+	default:
+		verif.Reach("pulled")
+		verif.Assert(afterLocal[rsl.Ref] == remoteRSL.String(), "pull:local-log-is-the-remote-log")
+		for n, v := range afterRemote {
+			verif.Assert(beforeRemote[n] == v, "pull:no-remote-reference-moves")
+		}
+		for n, v := range afterLocal {
+			if n == rsl.Ref || beforeLocal[n] == v {
+				continue
+			}
+			// a reference moved: only to what its latest unskipped remote entry records
+			want, has := wantRemote[n]
+			verif.Assert(has && want.String() == v, "pull:a-local-reference-moves-only-to-its-latest-unskipped-remote-entry")
+			if !overwrite {
+				old, _ := githash.NewHash(beforeLocal[n])
+				nw, _ := githash.NewHash(v)
+				verif.Assert(local.IsAncestor(nw, old), "pull:without-overwrite-a-reference-only-moves-forward")
+			}
+		}
+		// a reference that is merely behind its latest unskipped remote entry is brought up to it
+		for ref, want := range wantRemote {
+			oldS, had := beforeLocal[ref]
+			if !had {
+				continue
+			}
+			old, _ := githash.NewHash(oldS)
+			if local.IsAncestor(want, old) {
+				verif.Assert(afterLocal[ref] == want.String(), "pull:a-reference-that-is-behind-is-fast-forwarded")
+			}
+		}
+	}
+}
